@@ -358,3 +358,58 @@ func BadPutThenReturn(r io.Reader) *[]byte {
 	pool.Put(buf)
 	return buf
 }
+
+// ---- release closure returned together with the buffer; pool behind a one-implementation interface
+
+func borrow() (*[]byte, func()) {
+	b := pool.Get().(*[]byte)
+	return b, func() { pool.Put(b) }
+}
+
+func GoodBorrowRelease(r io.Reader) ([]byte, error) {
+	buf, release := borrow()
+	defer release()
+	n, err := r.Read(*buf)
+	return bytes.Clone((*buf)[:n]), err
+}
+
+func BadBorrowReleaseReturn(r io.Reader) []byte {
+	buf, release := borrow()
+	defer release()
+	n, _ := r.Read(*buf)
+	return (*buf)[:n]
+}
+
+type source interface {
+	take() *[]byte
+	give(*[]byte)
+}
+
+type poolSource struct{}
+
+func (poolSource) take() *[]byte  { return pool.Get().(*[]byte) }
+func (poolSource) give(b *[]byte) { pool.Put(b) }
+
+var src source = poolSource{}
+
+func GoodSeam(r io.Reader) int {
+	buf := src.take()
+	defer src.give(buf)
+	n, _ := r.Read(*buf)
+	return n
+}
+
+func BadSeamReturn(r io.Reader) []byte {
+	buf := src.take()
+	defer src.give(buf)
+	n, _ := r.Read(*buf)
+	return (*buf)[:n]
+}
+
+func BadCachedPoolReturn(r io.Reader) []byte {
+	p := &pool
+	buf := p.Get().(*[]byte)
+	defer func() { p.Put(buf) }()
+	n, _ := r.Read(*buf)
+	return (*buf)[:n]
+}
